@@ -24,13 +24,40 @@ def main():
             "psutil not imported from the stage: %s" % psutil.__file__
     from vf.harness import Ctx
     ctx = Ctx(a.tier, a.seed)
+    ALT = "/hostproc"
     try:
         if a.replay:
             rp = json.load(open(a.replay))
-            res = mod.replay(ctx, rp["case"])
+            case = rp["case"]
+            if isinstance(case, dict) and "_mount" in case:
+                from vf.simk import world
+                world.DEFAULT_PROCFS = case["_mount"]
+                ctx.alt = True
+                case = case["case"]
+            res = mod.replay(ctx, case)
         else:
             res = mod.run(ctx)
             res.setdefault("level", mod.LEVEL)
+            if getattr(mod, "ALT_MOUNT", False):
+                # the same check once more with procfs mounted somewhere else (psutil.PROCFS_PATH, a documented setting):
+                # nothing answers under /proc then, so a path that bypasses get_procfs_path() fails
+                from vf.simk import world
+                ctx.close()
+                world.DEFAULT_PROCFS, ctx.alt = ALT, True
+                try:
+                    res2 = mod.run(ctx)
+                finally:
+                    ctx.close()
+                    world.DEFAULT_PROCFS, ctx.alt = "/proc", False
+                for v in res2.get("violations", []):
+                    v["case"] = {"_mount": ALT, "case": v.get("case")}
+                    if isinstance(v.get("alt_case"), dict):
+                        v["alt_case"] = {"_mount": ALT, "history": v["alt_case"]["history"]}
+                    v["msg"] = "[procfs mounted at %s] %s" % (ALT, v.get("msg"))
+                res["violations"] = res.get("violations", []) + res2.get("violations", [])
+                c2 = res2.get("coverage", {})
+                res["coverage"]["alt_procfs_mount"] = {"mount": ALT, "violations": len(res2.get("violations", [])),
+                                                       **{k: c2[k] for k in ("evaluations", "distinct_nontrivial", "states", "transitions") if k in c2}}
     finally:
         ctx.close()
     with open(a.out, "w") as f:
